@@ -371,7 +371,8 @@ class C14(Prop):
                         yield raw(not req, 1, DIDENT, "", [], chunks)
         # the same through the wrappers for a few bodies (every composition)
         for body in (envelope(0, b"a"), envelope(2, b"{}"), envelope(0, b"") + envelope(1, b""), envelope(0x80, b"Z") + b"\x01\x02",
-                     envelope(0, b"abc", declared=2), envelope(1, b"") + envelope(3, b"Z")):
+                     envelope(0, b"abc", declared=2), envelope(1, b"") + envelope(3, b"Z"), envelope(2, b"{}") + envelope(0, b""),
+                     envelope(0, b"") + envelope(0x80, b"Zq"), envelope(1, b"ab") + b"\x00\x00\x00\x00"):
             for cutp in range(len(body) + 1):
                 t = body[:cutp]
                 if cutp < len(body) and len(t) > 9:
@@ -536,12 +537,18 @@ class C14(Prop):
                     yield raw(k % 2, stream, dk, enc, table, chunks)
                     ending = ("eof", "fail", "close", "eof-with-data", "close-fail", "fail-with-data")[k % 6]
                     if k % 2:
-                        yield ["c14.reader", k % 4 == 1, hdr, table, reader_ops(chunks, ending)]
+                        ops = reader_ops(chunks, ending)
+                        yield ["c14.reader", k % 4 == 1, hdr, table, ops]
+                        if k % 4 == 3:
+                            yield ["c14.rt", 0, hdr, table, ops]
                     else:
-                        yield ["c14.writer", hdr, table, writer_ops(chunks, None if k % 6 else rng.randrange(len(chunks) + 1))]
+                        wops = writer_ops(chunks, None if k % 6 else rng.randrange(len(chunks) + 1))
+                        yield ["c14.writer", hdr, table, wops]
+                        if k % 4 == 0:
+                            yield ["c14.handler", hdr, table, wops]
 
         # 2. random larger streams, random chunkings, through all entry points
-        n_rand = 60000 if quick else 500000
+        n_rand = 80000 if quick else 500000
         for _ in range(n_rand):
             r = rng.random()
             entry = "raw" if r < 0.4 else ("reader" if r < 0.75 else "writer")
